@@ -58,14 +58,18 @@ let () =
       try
         if Array.length f < 16 then raise (Parse_error "short line");
         (* general-position float64 stream: class f_<name>, ordinates as hex doubles, read exactly *)
-        let fl = String.length cls > 2 && String.sub cls 0 2 = "f_" in
-        let rd x = if fl then parse_fdump x else zq_geom (parse_zdump x) in
+        let pre p = String.length cls > 2 && String.sub cls 0 2 = p in
+        let fl = pre "f_" in
+        (* p_<name>: a lattice case scaled by an exact power of two; read exactly, brought back to
+           integers by the common power of two, judged like a lattice case (4 ulp, witness oracle) *)
+        let p2 = pre "p_" in
+        let rd x = if fl || p2 then parse_fdump x else zq_geom (parse_zdump x) in
         let a = rd f.(2) in
         let b = rd f.(3) in
         let c = rd f.(4) in
         (* float64 case: common power-of-two scaling to integer ordinates (exact; speed only) *)
         let (kscale, a, b, c) =
-          if fl then (match scale_to_integers [a; b; c] with (k, [a; b; c]) -> (k, a, b, c) | _ -> failwith "scale")
+          if fl || p2 then (match scale_to_integers [a; b; c] with (k, [a; b; c]) -> (k, a, b, c) | _ -> failwith "scale")
           else (0, a, b, c) in
         let qscale = q_pow2 kscale in
         let fscale = ldexp 1.0 kscale in
@@ -79,6 +83,7 @@ let () =
         let admitted = not fl || (count "float_cases"; clearance_ok tol2 a b) in
         if not admitted then begin count "float_excluded_clearance"; raise Exit end;
         if fl then count "float_admitted";
+        if p2 then count "pow2_cases";
         note_case (f.(2) ^ "|" ^ f.(3)) (not ea && not eb);
         count ("pair_" ^ type_tag a ^ "-" ^ type_tag b);
         if not valid then count "invalid_input";
